@@ -71,6 +71,8 @@ def enc_names(le, sets):
             body += u(le, 4, off) + nb + b'\0'
             pairs.append((name, s['info'], s['info'] + off))
         body += u(le, 4, 0)
+        # bytes that unit_length still covers behind the terminator (padding a producer may leave; a reader goes on at the end of the set)
+        body += bytes(s.get('slack', b''))
         unit_length = 2 + 4 + 4 + len(body)
         out += u(le, 4, unit_length) + u(le, 2, 2) + u(le, 4, s['info']) + u(le, 4, s['info_len']) + body
         headers.append({'unit_length': unit_length, 'version': 2, 'debug_info_offset': s['info'], 'debug_info_length': s['info_len']})
